@@ -92,6 +92,47 @@ pub fn pre_lists(thorough: bool, seed: usize) -> Vec<(Vec<Vec<u8>>, Vec<u8>)> {
         }
         v.push((l, b"aet-x".to_vec()));
     }
+    // more than 128 patterns (the packed builder gives up there) whose first 128+ share one start
+    // byte / one rare byte, followed by patterns that start differently
+    for extra in [1usize, 2, 12] {
+        let mut l: Vec<Vec<u8>> = (0..(128 + extra * 6)).map(|i| format!("a{:03}", i).into_bytes()).collect();
+        l.push(b"zeta".to_vec());
+        l.push(b"omega".to_vec());
+        v.push((l, b"a01 zetomg.x".to_vec()));
+        let mut l: Vec<Vec<u8>> = (0..(127 + extra)).map(|i| format!("{:03}Q", i).into_bytes()).collect();
+        l.push(b"zeta".to_vec());
+        v.push((l, b"01Q zeta.x".to_vec()));
+    }
+    // crowded fingerprint groups of the vector searcher (see packedc::lists), as prefilter
+    {
+        let firsts = [0x61u8, 0x41, 0x51, 0x71, 0x31, 0x21];
+        let seconds = [0x62u8, 0x42, 0x52, 0x72, 0x32, 0x22];
+        let group: Vec<Vec<u8>> = firsts.iter().flat_map(|&a| seconds.iter().map(move |&b| vec![a, b])).collect();
+        for n in [9usize, 17, 20, 33] {
+            let mut l: Vec<Vec<u8>> = group[..n].to_vec();
+            l.push(b"zz".to_vec());
+            l.push(b"abcd".to_vec());
+            l.push(vec![0x41, 0x62, b'x']);
+            v.push((l, b"abAB12cdxz.".to_vec()));
+        }
+    }
+    // at most three distinct first bytes, some of them UTF-8 lead bytes (0xC2..=0xF4), others
+    // ASCII or continuation / invalid bytes; more rare bytes than start bytes
+    for l in [
+        vec!["\u{fc}ber".as_bytes().to_vec(), b"fjord".to_vec(), b"fix".to_vec()],
+        vec!["\u{e9}t\u{e9}".as_bytes().to_vec(), "\u{e9}cole".as_bytes().to_vec(), b"zoo".to_vec()],
+        vec!["\u{2603}x".as_bytes().to_vec(), "\u{1F600}".as_bytes().to_vec(), b"qq".to_vec()],
+        vec![vec![0xC2, b'a', b'b'], vec![0x80, b'z'], vec![0xF4, b'k', b'k']],
+        vec![vec![0xF5, b'a'], vec![0xC1, b'b'], vec![0xC2, b'c']],
+        vec!["\u{fc}ber".as_bytes().to_vec()],
+        vec!["\u{fc}ber".as_bytes().to_vec(), "\u{e4}hnlich".as_bytes().to_vec()],
+    ] {
+        let mut halpha: Vec<u8> = l.iter().flatten().cloned().collect();
+        halpha.extend_from_slice(b" x");
+        halpha.sort();
+        halpha.dedup();
+        v.push((l, halpha));
+    }
     // a pattern whose first rare byte sits at offset 254..300 (offsets are stored in a u8)
     for k in [254usize, 255, 256, 257, 300] {
         let mut p = vec![b'a'; k];
